@@ -219,6 +219,14 @@ def case_reducer(c):
                   'waterfall.get_pfb_waterfall')
         except Exception as e:
             V('raised', 'fftlength=%d int_factor=%d: %s: %s' % (N, I, type(e).__name__, e), 'waterfall.get_pfb_waterfall')
+        # the two settings as numpy fixed-width integers
+        try:
+            got = svw.get_pfb_waterfall(args[0], args[1], fftlength=np.int16(N), int_factor=np.uint8(I))
+            if got.shape != want.shape or not np.allclose(got, want, rtol=1e-9, atol=1e-9):
+                V('reduction', 'get_pfb_waterfall(%s, fftlength=np.int16(%d), int_factor=np.uint8(%d)): shape %s vs %s' % (name, N, I, got.shape, want.shape),
+                  'waterfall.get_pfb_waterfall')
+        except Exception as e:
+            V('raised', 'fftlength=np.int16(%d) int_factor=np.uint8(%d): %s: %s' % (N, I, type(e).__name__, e), 'waterfall.get_pfb_waterfall')
     # from a real RAW file (dual polarisation, 8 bit): first block only
     ant = sv.Antenna(sample_rate=1024.0, fch1=0.0, ascending=True, num_pols=2, seed=c['seed'] + 1)
     ant.x.add_noise(0, 1); ant.y.add_noise(0, 1)
